@@ -15,6 +15,7 @@ import (
 
 	"github.com/rulego/streamsql"
 	"github.com/rulego/streamsql/functions"
+	"github.com/rulego/streamsql/schema"
 )
 
 // C20 — caller data is never modified; instances do not influence each other.
@@ -313,6 +314,12 @@ func (c20) Gen(rng *rand.Rand, tier string, idx int) Case {
 		return r
 	}
 	c.Cfg = append(c.Cfg, []string{"sql", hx(qa.sql)}, qa.tokens("q"), []string{"sql2", hx(qb.sql)}, qb.tokens("q2"))
+	if rng.Intn(4) == 0 {
+		// every instance of the case validates its input against a schema that declares a default for a column no row
+		// carries (WithSchema): the default is for the engine, the caller's map stays as it was
+		c.Cfg = append(c.Cfg, []string{"schema", "1"})
+		c.Stat = append(c.Stat, "input-schema-with-default")
+	}
 	id := 1
 	if qa.window == 0 {
 		for i := 0; i < 2+rng.Intn(4); i++ {
@@ -402,8 +409,24 @@ func c20Canon(b []map[string]interface{}) []string {
 	return rows
 }
 
+// c20Schema (cfg `schema 1`): the instances of the running case are created with WithSchema
+var c20Schema bool
+
+// c20ChildEnv: the solo / pair processes create their instances the way this process does
+func c20ChildEnv() []string {
+	env := os.Environ()
+	if c20Schema {
+		env = append(env, "C20_SCHEMA=1")
+	}
+	return env
+}
+
 func c20New(q c20Query) *c20Inst {
-	in := &c20Inst{q: q, s: streamsql.New(streamsql.WithDiscardLog())}
+	opts := []streamsql.Option{streamsql.WithDiscardLog()}
+	if c20Schema || os.Getenv("C20_SCHEMA") == "1" {
+		opts = append(opts, streamsql.WithSchema(schema.Schema{Name: "c20", Fields: []schema.FieldDef{{Name: "zdef", Type: schema.TypeFloat, Default: float64(7)}}}))
+	}
+	in := &c20Inst{q: q, s: streamsql.New(opts...)}
 	if in.err = in.s.Execute(q.sql); in.err != nil {
 		return in
 	}
@@ -560,6 +583,7 @@ func c20RunSoloFresh(q c20Query, rows []map[string]interface{}) ([]string, bool)
 	args = append(args, "--")
 	args = append(args, c20RowsTok(rows)...)
 	cmd := exec.Command(exe, args...)
+	cmd.Env = c20ChildEnv()
 	outb, err := cmd.Output()
 	if err != nil {
 		return []string{"solo-process-failed"}, false
@@ -646,7 +670,9 @@ func c20RunPairedFresh(qa, qb c20Query, ra, rb []map[string]interface{}, bits st
 	args = append(args, c20RowsTok(ra)...)
 	args = append(args, c20RowsTok(rb)...)
 	args = append(args, bits)
-	outb, err := exec.Command(exe, args...).Output()
+	pcmd := exec.Command(exe, args...)
+	pcmd.Env = c20ChildEnv()
+	outb, err := pcmd.Output()
 	if err != nil {
 		return []string{"pair-process-failed"}, []string{"pair-process-failed"}, false
 	}
@@ -696,6 +722,8 @@ func init() {
 }
 
 func (c20) Exec(c Case) [][][]string {
+	c20Schema = c04CfgVal(c, "schema", "0") == "1"
+	defer func() { c20Schema = false }()
 	var qa, qb c20Query
 	var sqlA, sqlB string
 	for _, l := range c.Cfg {
